@@ -220,6 +220,8 @@ func (wbsa *Aggregator) UpdateState(id string, newState balancer.State) {
 // Caller must hold wbsa.mu.
 func (wbsa *Aggregator) clearStates() {
 	for _, pState := range wbsa.idToPickerState {
+		// Keep csEvltr's counters in sync with the state being reset.
+		wbsa.csEvltr.RecordTransition(pState.stateToAggregate, connectivity.Connecting)
 		pState.state = balancer.State{
 			ConnectivityState: connectivity.Connecting,
 			Picker:            base.NewErrPicker(balancer.ErrNoSubConnAvailable),
